@@ -345,5 +345,14 @@ Detail(o, e) == [sess |-> o.sess, chals |-> o.chals, reqs |-> o.reqs]
 
 \* cause tag of a flagged event (part of the violation signature used by known_findings.json): a datagram of a token whose
 \* session had already ended is a presentation "after_session" (D18)
-Cause(o, e) == IF "d" \in DOMAIN e /\ e.d.tok \in o.ended THEN "after_session" ELSE "none"
+\* "token_table_evicted" (D21): the token of the datagram was answered earlier at ANOTHER address, and since then at least
+\* TOKEN_TABLE requests with other tokens were answered -- the code's table of used tokens (2048 entries, oldest replaced)
+\* has forgotten the binding
+TOKEN_TABLE == 2048
+Evicted(o, e) ==
+    /\ "d" \in DOMAIN e /\ "from" \in DOMAIN e
+    /\ \E q2 \in o.reqs : /\ q2.tok = e.d.tok /\ q2.addr # e.from /\ q2.answered
+                           /\ Cardinality({q3.tok : q3 \in {x \in o.reqs : x.n > q2.n /\ x.answered /\ x.tok # e.d.tok}}) >= TOKEN_TABLE
+Cause(o, e) == IF "d" \in DOMAIN e /\ e.d.tok \in o.ended THEN "after_session"
+               ELSE IF Evicted(o, e) THEN "token_table_evicted" ELSE "none"
 =============================================================================
